@@ -1,8 +1,11 @@
 /-
-  Helper lemmas for C01: pg_attribute in PostgreSQL's three real layouts (12–13, 14–15, 16) read with the tool's two
-  schemas (catalog.go: schemaPGAttrV15, schemaPGAttrV16).  The schemas agree with the real layouts up to `attnum`;
-  after that the tool's columns fall on other attributes' bytes (finding A03: its `attalign` is the high byte of
-  `attcacheoff` / `atttypmod`), which is modelled here byte for byte.
+  Helper lemmas for C01: pg_attribute in PostgreSQL's three real layouts (12–13, 14–15, 16) read with the tool's three
+  schemas (dropped.go: schemaPGAttrDropped / …V15 / …V12, which catalog.go:readAttrRows uses since fixes/cluster/08).
+  Each schema is a prefix of "its" real layout (readings R16, R14, R12: every field from the right bytes).  Without a
+  version hint the tool reads the file under all three schemas and keeps the one with the most plausible rows; the
+  lemmas here say what a schema sees in a row of ANOTHER layout, as far as the choice needs it: the 16 schema on a
+  12–15 row (reading D: its `attalign` is the high byte of attcacheoff, 0xFF), the 14–15 schema on a 12–13 row (reading
+  E: its `attstorage` is the row's attalign), and that every schema decodes every row (`decodeTuple_catSchema`).
 -/
 import PgVerif.Proofs.ClusterAttrs
 namespace PgVerif.Proofs.Cluster
@@ -27,11 +30,14 @@ theorem ofSigned32_lt (v : Int) : ofSigned 32 v < 4294967296 := by
   simp only [Nat.reducePow]
   omega
 
-/-- third and fourth byte of a little-endian 32-bit field -/
+/-- the four bytes of a little-endian 32-bit field -/
+def b0 (x : Nat) : UInt8 := UInt8.ofNat (x % 256)
+def b1 (x : Nat) : UInt8 := UInt8.ofNat (x / 256 % 256)
 def b2 (x : Nat) : UInt8 := UInt8.ofNat (x / 256 / 256 % 256)
 def b3 (x : Nat) : UInt8 := UInt8.ofNat (x / 256 / 256 / 256 % 256)
 theorem le4_split (x : Nat) : le 4 x = le 2 x ++ ([b2 x] ++ [b3 x]) := rfl
 theorem le4_split2 (x : Nat) : le 4 x = le 2 x ++ le 2 (x / 256 / 256) := rfl
+theorem le4_bytes (x : Nat) : le 4 x = [b0 x] ++ ([b1 x] ++ ([b2 x] ++ [b3 x])) := rfl
 
 /-! ### a run of fixed-width attributes without padding -/
 
@@ -74,118 +80,213 @@ theorem attrVals_OK (l : Layout) (a : AttrRow) (hn : a.name.length ≤ 64) : All
       pairOK_oid _ _,
       pairOK_none _ (by simp [cArr]), pairOK_none _ (by simp [cArr]), pairOK_none _ (by simp [cArr]), pairOK_none _ (by simp [cArr])⟩
 
-theorem attrCols_length (l : Layout) : 10 ≤ (pgAttributeCols l).length ∧ (pgAttributeCols l).length ≤ 1600 := by
+theorem attrCols_length (l : Layout) : 19 ≤ (pgAttributeCols l).length ∧ (pgAttributeCols l).length ≤ 1600 := by
   cases l <;> decide
 
 theorem attr_WF (l : Layout) (a : AttrRow) (im : Nat) (hn : a.name.length ≤ 64) (him : im < 65536) :
     RowV.WF (pgAttributeCols l) ⟨attrVals l a, (pgAttributeCols l).length, im⟩ :=
   catalog_WF _ _ _ (attrVals_OK l a hn) (attrCols_length l).2 him
 
-/-! ### the tool's two schemas as column layouts -/
+/-! ### the tool's three schemas as column layouts: prefixes of the real layouts -/
 
-def attrColsV15 : List Col :=
-  [cOid "attrelid", cName "attname", cOid "atttypid", cInt4 "attstattarget", cInt2 "attlen", cInt2 "attnum",
-   cInt4 "atttypmod", cInt2 "attndims", cBool "attbyval", cChar "attalign"]
+def attrCols16 : List Col := (pgAttributeCols .v16).take 18
+def attrCols14 : List Col := (pgAttributeCols .v14).take 19
+def attrCols12 : List Col := (pgAttributeCols .v12).take 18
 
-def attrColsV16 : List Col :=
-  [cOid "attrelid", cName "attname", cOid "atttypid", cInt2 "attlen", cInt2 "attnum",
-   cInt4 "atttypmod", cInt2 "attndims", cBool "attbyval", cChar "attalign"]
-
-theorem attrColsV15_match : ColsMatch 0 schemaPGAttrV15 attrColsV15 := by
-  simp only [ColsMatch, ColMatch, schemaPGAttrV15, mkSchema, Generated.Cluster.schemaPGAttrV15, attrColsV15, List.map,
-    cOid, cName, cInt4, cInt2, cBool, cChar, true_and, and_true]
+theorem attrCols16_match : ColsMatch 0 catSchemaAttr16 attrCols16 := by
+  simp only [ColsMatch, ColMatch, catSchemaAttr16, mkSchema, Generated.Cluster.schemaPGAttrDropped, attrCols16, pgAttributeCols,
+    List.map, List.take, cOid, cName, cInt4, cInt2, cBool, cChar, true_and, and_true]
   repeat' apply And.intro
   all_goals decide
 
-theorem attrColsV16_match : ColsMatch 0 schemaPGAttrV16 attrColsV16 := by
-  simp only [ColsMatch, ColMatch, schemaPGAttrV16, mkSchema, Generated.Cluster.schemaPGAttrV16, attrColsV16, List.map,
-    cOid, cName, cInt4, cInt2, cBool, cChar, true_and, and_true]
+theorem attrCols14_match : ColsMatch 0 catSchemaAttr14 attrCols14 := by
+  simp only [ColsMatch, ColMatch, catSchemaAttr14, mkSchema, Generated.Cluster.schemaPGAttrDroppedV15, attrCols14, pgAttributeCols,
+    List.map, List.take, cOid, cName, cInt4, cInt2, cBool, cChar, true_and, and_true]
   repeat' apply And.intro
   all_goals decide
 
-theorem schemaV15_ne : schemaPGAttrV15 ≠ [] := by simp [schemaPGAttrV15, mkSchema, Generated.Cluster.schemaPGAttrV15]
-theorem schemaV16_ne : schemaPGAttrV16 ≠ [] := by simp [schemaPGAttrV16, mkSchema, Generated.Cluster.schemaPGAttrV16]
+theorem attrCols12_match : ColsMatch 0 catSchemaAttr12 attrCols12 := by
+  simp only [ColsMatch, ColMatch, catSchemaAttr12, mkSchema, Generated.Cluster.schemaPGAttrDroppedV12, attrCols12, pgAttributeCols,
+    List.map, List.take, cOid, cName, cInt4, cInt2, cBool, cChar, true_and, and_true]
+  repeat' apply And.intro
+  all_goals decide
+
+theorem schema16_ne : catSchemaAttr16 ≠ [] := by simp [catSchemaAttr16, mkSchema, Generated.Cluster.schemaPGAttrDropped]
+theorem schema14_ne : catSchemaAttr14 ≠ [] := by simp [catSchemaAttr14, mkSchema, Generated.Cluster.schemaPGAttrDroppedV15]
+theorem schema12_ne : catSchemaAttr12 ≠ [] := by simp [catSchemaAttr12, mkSchema, Generated.Cluster.schemaPGAttrDroppedV12]
 
 /-- the padded `name` field -/
 def nameField (n : Bytes) : Bytes := n ++ zeros (64 - n.length)
 theorem nameField_length (n : Bytes) (h : n.length ≤ 64) : (nameField n).length = 64 := by simp [nameField]; omega
 
-/-- what the V15 schema sees in a 12–15 row (A): its last three columns are bytes of attcacheoff (= −1) -/
-def attrBssA (a : AttrRow) : List Bytes :=
-  [le 4 a.relid, nameField a.name, le 4 a.typid, le 4 (ofSigned 32 a.stattarget), le 2 (ofSigned 16 a.len),
-   le 2 (ofSigned 16 a.num), le 4 (ofSigned 32 a.ndims), le 2 (ofSigned 32 (-1)), [b2 (ofSigned 32 (-1))], [b3 (ofSigned 32 (-1))]]
+def bBool (b : Bool) : Bytes := [if b then 1 else 0]
+def bByte (v : Nat) : Bytes := [UInt8.ofNat v]
 
-/-- what the V16 schema sees in a 16 row (B): its `atttypmod` is attcacheoff, its last three columns are bytes of atttypmod -/
-def attrBssB (a : AttrRow) : List Bytes :=
-  [le 4 a.relid, nameField a.name, le 4 a.typid, le 2 (ofSigned 16 a.len), le 2 (ofSigned 16 a.num),
-   le 4 (ofSigned 32 (-1)), le 2 (ofSigned 32 a.typmod), [b2 (ofSigned 32 a.typmod)], [b3 (ofSigned 32 a.typmod)]]
-
-/-- what the V16 schema sees in a 12–15 row (C, auto-detection probing): `attlen`/`attnum` are the halves of
-attstattarget, `atttypmod` is attlen+attnum, the last three columns are bytes of attndims -/
-def attrBssC (a : AttrRow) : List Bytes :=
-  [le 4 a.relid, nameField a.name, le 4 a.typid, le 2 (ofSigned 32 a.stattarget), le 2 (ofSigned 32 a.stattarget / 256 / 256),
-   le 2 (ofSigned 16 a.len) ++ le 2 (ofSigned 16 a.num), le 2 (ofSigned 32 a.ndims), [b2 (ofSigned 32 a.ndims)], [b3 (ofSigned 32 a.ndims)]]
-
-/-- the first attributes of the real rows, as fixed-width byte strings -/
-def realBss15 (a : AttrRow) : List Bytes :=
-  [le 4 a.relid, nameField a.name, le 4 a.typid, le 4 (ofSigned 32 a.stattarget), le 2 (ofSigned 16 a.len),
-   le 2 (ofSigned 16 a.num), le 4 (ofSigned 32 a.ndims), le 4 (ofSigned 32 (-1))]
+/-- the first 18 attributes of a 16 row (up to attisdropped), as fixed-width byte strings -/
 def realBss16 (a : AttrRow) : List Bytes :=
   [le 4 a.relid, nameField a.name, le 4 a.typid, le 2 (ofSigned 16 a.len), le 2 (ofSigned 16 a.num),
-   le 4 (ofSigned 32 (-1)), le 4 (ofSigned 32 a.typmod)]
+   le 4 (ofSigned 32 (-1)), le 4 (ofSigned 32 a.typmod), le 2 (ofSigned 16 a.ndims), bBool a.byval, bByte (alignCh a.align),
+   bByte a.storage, bByte 0, bBool a.notnull, bBool false, bBool false, bByte 0, bByte 0, bBool a.dropped]
 
-theorem realVals15 (l : Layout) (hl : l ≠ .v16) (a : AttrRow) :
-    (attrVals l a).take 8 = (realBss15 a).map fun bs => some (Datum.fixed bs) := by
+/-- the first 19 attributes of a 14–15 row (up to attisdropped) -/
+def realBss14 (a : AttrRow) : List Bytes :=
+  [le 4 a.relid, nameField a.name, le 4 a.typid, le 4 (ofSigned 32 a.stattarget), le 2 (ofSigned 16 a.len),
+   le 2 (ofSigned 16 a.num), le 4 (ofSigned 32 a.ndims), le 4 (ofSigned 32 (-1)), le 4 (ofSigned 32 a.typmod), bBool a.byval,
+   bByte (alignCh a.align), bByte a.storage, bByte 0, bBool a.notnull, bBool false, bBool false, bByte 0, bByte 0, bBool a.dropped]
+
+/-- the first 19 attributes of a 12–13 row (up to attislocal; attisdropped is the 18th) -/
+def realBss12 (a : AttrRow) : List Bytes :=
+  [le 4 a.relid, nameField a.name, le 4 a.typid, le 4 (ofSigned 32 a.stattarget), le 2 (ofSigned 16 a.len),
+   le 2 (ofSigned 16 a.num), le 4 (ofSigned 32 a.ndims), le 4 (ofSigned 32 (-1)), le 4 (ofSigned 32 a.typmod), bBool a.byval,
+   bByte a.storage, bByte (alignCh a.align), bBool a.notnull, bBool false, bBool false, bByte 0, bByte 0, bBool a.dropped, bBool true]
+
+theorem realVals16 (a : AttrRow) : (attrVals .v16 a).take 18 = (realBss16 a).map fun bs => some (Datum.fixed bs) := rfl
+theorem realVals14 (a : AttrRow) : (attrVals .v14 a).take 19 = (realBss14 a).map fun bs => some (Datum.fixed bs) := rfl
+theorem realVals12 (a : AttrRow) : (attrVals .v12 a).take 19 = (realBss12 a).map fun bs => some (Datum.fixed bs) := rfl
+theorem realVals12_18 (a : AttrRow) : (attrVals .v12 a).take 18 = ((realBss12 a).take 18).map fun bs => some (Datum.fixed bs) := rfl
+
+theorem fixed_16 (a : AttrRow) (hn : a.name.length ≤ 64) : AllFixed attrCols16 (realBss16 a) := by
+  have hN := nameField_length a.name hn
+  simp only [AllFixed, FixedOK, attrCols16, pgAttributeCols, List.take, realBss16, bBool, bByte, cOid, cName, cInt4, cInt2, cBool, cChar,
+    le_length, hN, length_cons, length_nil, and_true]
+  repeat' apply And.intro
+  all_goals first | decide | (unfold Pow2Align; decide)
+
+theorem fixed_14 (a : AttrRow) (hn : a.name.length ≤ 64) : AllFixed attrCols14 (realBss14 a) := by
+  have hN := nameField_length a.name hn
+  simp only [AllFixed, FixedOK, attrCols14, pgAttributeCols, List.take, realBss14, bBool, bByte, cOid, cName, cInt4, cInt2, cBool, cChar,
+    le_length, hN, length_cons, length_nil, and_true]
+  repeat' apply And.intro
+  all_goals first | decide | (unfold Pow2Align; decide)
+
+theorem fixed_12 (a : AttrRow) (hn : a.name.length ≤ 64) : AllFixed attrCols12 ((realBss12 a).take 18) := by
+  have hN := nameField_length a.name hn
+  simp only [AllFixed, FixedOK, attrCols12, pgAttributeCols, List.take, realBss12, bBool, bByte, cOid, cName, cInt4, cInt2, cBool, cChar,
+    le_length, hN, length_cons, length_nil, and_true]
+  repeat' apply And.intro
+  all_goals first | decide | (unfold Pow2Align; decide)
+
+/-- reading E: the 14–15 schema over the first 19 attributes of a 12–13 row (the same widths under other names) -/
+theorem fixed_E (a : AttrRow) (hn : a.name.length ≤ 64) : AllFixed attrCols14 (realBss12 a) := by
+  have hN := nameField_length a.name hn
+  simp only [AllFixed, FixedOK, attrCols14, pgAttributeCols, List.take, realBss12, bBool, bByte, cOid, cName, cInt4, cInt2, cBool, cChar,
+    le_length, hN, length_cons, length_nil, and_true]
+  repeat' apply And.intro
+  all_goals first | decide | (unfold Pow2Align; decide)
+
+theorem aligned_12real (a : AttrRow) (hn : a.name.length ≤ 64) : Aligned 0 ((pgAttributeCols .v12).take 19) (realBss12 a) := by
+  have hN := nameField_length a.name hn
+  simp only [Aligned, pgAttributeCols, realBss12, bBool, bByte, List.take, cOid, cName, cInt4, cInt2, cBool, cChar, le_length, hN, alignUp,
+    length_cons, length_nil, and_true]
+
+theorem aligned_E (a : AttrRow) (hn : a.name.length ≤ 64) : Aligned 0 attrCols14 (realBss12 a) := by
+  have hN := nameField_length a.name hn
+  simp only [Aligned, attrCols14, pgAttributeCols, realBss12, bBool, bByte, List.take, cOid, cName, cInt4, cInt2, cBool, cChar, le_length, hN,
+    alignUp, length_cons, length_nil, and_true]
+
+/-! ### reading D: the 16 schema over a 12–15 row -/
+
+/-- the first 13 attributes (96 bytes) of a 12–13 or 14–15 row -/
+def realBssOld (l : Layout) (a : AttrRow) : List Bytes :=
+  match l with
+  | .v12 => (realBss12 a).take 13
+  | _ => (realBss14 a).take 13
+
+/-- what the 16 schema sees in them: `attlen`/`attnum` are the halves of attstattarget, `attcacheoff` is attlen+attnum,
+`atttypmod` is attndims, `attndims`/`attbyval`/`attalign` are the bytes of attcacheoff (= −1, so `attalign` = 0xFF),
+`attstorage` … `atthasdef` the bytes of atttypmod, the last four the row's four one-byte attributes after atttypmod -/
+def attrBssD (l : Layout) (a : AttrRow) : List Bytes :=
+  [le 4 a.relid, nameField a.name, le 4 a.typid, le 2 (ofSigned 32 a.stattarget), le 2 (ofSigned 32 a.stattarget / 256 / 256),
+   le 2 (ofSigned 16 a.len) ++ le 2 (ofSigned 16 a.num), le 4 (ofSigned 32 a.ndims),
+   le 2 (ofSigned 32 (-1)), [b2 (ofSigned 32 (-1))], [b3 (ofSigned 32 (-1))],
+   [b0 (ofSigned 32 a.typmod)], [b1 (ofSigned 32 a.typmod)], [b2 (ofSigned 32 a.typmod)], [b3 (ofSigned 32 a.typmod)]] ++
+  ((realBssOld l a).drop 9)
+
+theorem realValsOld (l : Layout) (hl : l ≠ .v16) (a : AttrRow) :
+    (attrVals l a).take 13 = (realBssOld l a).map fun bs => some (Datum.fixed bs) := by
   cases l
   · rfl
   · rfl
   · exact absurd rfl hl
 
-theorem realVals16 (a : AttrRow) : (attrVals .v16 a).take 7 = (realBss16 a).map fun bs => some (Datum.fixed bs) := rfl
-
-theorem aligned_real15 (l : Layout) (hl : l ≠ .v16) (a : AttrRow) (hn : a.name.length ≤ 64) :
-    Aligned 0 ((pgAttributeCols l).take 8) (realBss15 a) := by
+theorem aligned_realOld (l : Layout) (hl : l ≠ .v16) (a : AttrRow) (hn : a.name.length ≤ 64) :
+    Aligned 0 ((pgAttributeCols l).take 13) (realBssOld l a) := by
   have hN := nameField_length a.name hn
   cases l
-  · simp only [Aligned, pgAttributeCols, realBss15, List.take, cOid, cName, cInt4, cInt2, le_length, hN, alignUp, and_true]
-  · simp only [Aligned, pgAttributeCols, realBss15, List.take, cOid, cName, cInt4, cInt2, le_length, hN, alignUp, and_true]
+  · simp only [Aligned, pgAttributeCols, realBssOld, realBss12, bBool, bByte, List.take, cOid, cName, cInt4, cInt2, cBool, cChar, le_length, hN,
+      alignUp, length_cons, length_nil, and_true]
+  · simp only [Aligned, pgAttributeCols, realBssOld, realBss14, bBool, bByte, List.take, cOid, cName, cInt4, cInt2, cBool, cChar, le_length, hN,
+      alignUp, length_cons, length_nil, and_true]
   · exact absurd rfl hl
 
-theorem aligned_real16 (a : AttrRow) (hn : a.name.length ≤ 64) : Aligned 0 ((pgAttributeCols .v16).take 7) (realBss16 a) := by
+theorem aligned_D (l : Layout) (hl : l ≠ .v16) (a : AttrRow) (hn : a.name.length ≤ 64) : Aligned 0 attrCols16 (attrBssD l a) := by
   have hN := nameField_length a.name hn
-  simp only [Aligned, pgAttributeCols, realBss16, List.take, cOid, cName, cInt4, cInt2, le_length, hN, alignUp, and_true]
+  cases l
+  · simp only [Aligned, attrCols16, pgAttributeCols, attrBssD, realBssOld, realBss12, bBool, bByte, List.take, List.drop, cons_append, nil_append,
+      cOid, cName, cInt4, cInt2, cBool, cChar, le_length, hN, alignUp, length_cons, length_nil, length_append, and_true]
+  · simp only [Aligned, attrCols16, pgAttributeCols, attrBssD, realBssOld, realBss14, bBool, bByte, List.take, List.drop, cons_append, nil_append,
+      cOid, cName, cInt4, cInt2, cBool, cChar, le_length, hN, alignUp, length_cons, length_nil, length_append, and_true]
+  · exact absurd rfl hl
 
-theorem aligned_A (a : AttrRow) (hn : a.name.length ≤ 64) : Aligned 0 attrColsV15 (attrBssA a) := by
+theorem fixed_D (l : Layout) (hl : l ≠ .v16) (a : AttrRow) (hn : a.name.length ≤ 64) : AllFixed attrCols16 (attrBssD l a) := by
   have hN := nameField_length a.name hn
-  simp only [Aligned, attrColsV15, attrBssA, cOid, cName, cInt4, cInt2, cBool, cChar, le_length, hN, alignUp, length_cons, length_nil, and_true]
+  cases l
+  · simp only [AllFixed, FixedOK, attrCols16, pgAttributeCols, attrBssD, realBssOld, realBss12, bBool, bByte, List.take, List.drop, cons_append,
+      nil_append, cOid, cName, cInt4, cInt2, cBool, cChar, le_length, hN, length_cons, length_nil, length_append, and_true]
+    repeat' apply And.intro
+    all_goals first | decide | (unfold Pow2Align; decide)
+  · simp only [AllFixed, FixedOK, attrCols16, pgAttributeCols, attrBssD, realBssOld, realBss14, bBool, bByte, List.take, List.drop, cons_append,
+      nil_append, cOid, cName, cInt4, cInt2, cBool, cChar, le_length, hN, length_cons, length_nil, length_append, and_true]
+    repeat' apply And.intro
+    all_goals first | decide | (unfold Pow2Align; decide)
+  · exact absurd rfl hl
 
-theorem aligned_B (a : AttrRow) (hn : a.name.length ≤ 64) : Aligned 0 attrColsV16 (attrBssB a) := by
-  have hN := nameField_length a.name hn
-  simp only [Aligned, attrColsV16, attrBssB, cOid, cName, cInt4, cInt2, cBool, cChar, le_length, hN, alignUp, length_cons, length_nil, and_true]
+theorem flat_D (l : Layout) (hl : l ≠ .v16) (a : AttrRow) : (realBssOld l a).flatten = (attrBssD l a).flatten := by
+  cases l
+  · simp only [realBssOld, realBss12, attrBssD, List.take, List.drop, cons_append, nil_append, flatten_cons, flatten_nil, append_nil]
+    rw [le4_split2 (ofSigned 32 a.stattarget), le4_split (ofSigned 32 (-1)), le4_bytes (ofSigned 32 a.typmod)]
+    simp only [append_assoc, cons_append, nil_append]
+  · simp only [realBssOld, realBss14, attrBssD, List.take, List.drop, cons_append, nil_append, flatten_cons, flatten_nil, append_nil]
+    rw [le4_split2 (ofSigned 32 a.stattarget), le4_split (ofSigned 32 (-1)), le4_bytes (ofSigned 32 a.typmod)]
+    simp only [append_assoc, cons_append, nil_append]
+  · exact absurd rfl hl
 
-theorem aligned_C (a : AttrRow) (hn : a.name.length ≤ 64) : Aligned 0 attrColsV16 (attrBssC a) := by
-  have hN := nameField_length a.name hn
-  simp only [Aligned, attrColsV16, attrBssC, cOid, cName, cInt4, cInt2, cBool, cChar, le_length, hN, alignUp, length_cons, length_nil,
-    length_append, and_true]
+/-! ### the data area of a row starts with what each reading sees -/
 
-theorem flat_A (a : AttrRow) : (realBss15 a).flatten = (attrBssA a).flatten := by
-  simp only [realBss15, attrBssA, flatten_cons, flatten_nil, append_nil]
-  rw [le4_split (ofSigned 32 (-1))]
+theorem data_16 (a : AttrRow) :
+    ∃ rest, form (pgAttributeCols .v16) (attrVals .v16 a) 0 = form attrCols16 ((realBss16 a).map fun bs => some (Datum.fixed bs)) 0 ++ rest := by
+  have h := form_split 18 (pgAttributeCols .v16) (attrVals .v16 a) 0
+  rw [realVals16 a] at h
+  exact ⟨_, h⟩
 
-theorem flat_B (a : AttrRow) : (realBss16 a).flatten = (attrBssB a).flatten := by
-  simp only [realBss16, attrBssB, flatten_cons, flatten_nil, append_nil]
-  rw [le4_split (ofSigned 32 a.typmod)]
+theorem data_14 (a : AttrRow) :
+    ∃ rest, form (pgAttributeCols .v14) (attrVals .v14 a) 0 = form attrCols14 ((realBss14 a).map fun bs => some (Datum.fixed bs)) 0 ++ rest := by
+  have h := form_split 19 (pgAttributeCols .v14) (attrVals .v14 a) 0
+  rw [realVals14 a] at h
+  exact ⟨_, h⟩
 
-theorem flat_C (a : AttrRow) : ((realBss15 a).take 7).flatten = (attrBssC a).flatten := by
-  simp only [realBss15, attrBssC, List.take, flatten_cons, flatten_nil, append_nil, append_assoc]
-  rw [le4_split2 (ofSigned 32 a.stattarget), le4_split (ofSigned 32 a.ndims)]
-  simp only [append_assoc]
+theorem data_12 (a : AttrRow) :
+    ∃ rest, form (pgAttributeCols .v12) (attrVals .v12 a) 0 =
+      form attrCols12 (((realBss12 a).take 18).map fun bs => some (Datum.fixed bs)) 0 ++ rest := by
+  have h := form_split 18 (pgAttributeCols .v12) (attrVals .v12 a) 0
+  rw [realVals12_18 a] at h
+  exact ⟨_, h⟩
 
+theorem data_E (a : AttrRow) (hn : a.name.length ≤ 64) :
+    ∃ rest, form (pgAttributeCols .v12) (attrVals .v12 a) 0 = form attrCols14 ((realBss12 a).map fun bs => some (Datum.fixed bs)) 0 ++ rest := by
+  have h := form_split 19 (pgAttributeCols .v12) (attrVals .v12 a) 0
+  rw [realVals12 a, form_flat _ _ _ (aligned_12real a hn), ← form_flat _ _ _ (aligned_E a hn)] at h
+  exact ⟨_, h⟩
 
+theorem data_D (l : Layout) (hl : l ≠ .v16) (a : AttrRow) (hn : a.name.length ≤ 64) :
+    ∃ rest, form (pgAttributeCols l) (attrVals l a) 0 = form attrCols16 ((attrBssD l a).map fun bs => some (Datum.fixed bs)) 0 ++ rest := by
+  have h := form_split 13 (pgAttributeCols l) (attrVals l a) 0
+  rw [realValsOld l hl a, form_flat _ _ _ (aligned_realOld l hl a hn), flat_D l hl, ← form_flat _ _ _ (aligned_D l hl a hn)] at h
+  exact ⟨_, h⟩
 
-/-! ### the three readings of a pg_attribute row -/
+/-! ### the readings of a pg_attribute row -/
 
-theorem attrVals_some (l : Layout) (a : AttrRow) : ((attrVals l a).take 10).all Option.isSome = true := by
+theorem attrVals_some (l : Layout) (a : AttrRow) : ((attrVals l a).take 19).all Option.isSome = true := by
   cases l <;> rfl
 
 theorem isSome_of_all (vals : List (Option Datum)) (m : Nat) (h : (vals.take m).all Option.isSome = true) (hm : m ≤ vals.length) :
@@ -198,108 +299,144 @@ theorem isSome_of_all (vals : List (Option Datum)) (m : Nat) (h : (vals.take m).
   have := all_eq_true.mp h _ hmem
   simp [List.getD, getElem?_eq_getElem hj', this]
 
-theorem attrVals_length (l : Layout) (a : AttrRow) : 10 ≤ (attrVals l a).length := by
+theorem attrVals_length (l : Layout) (a : AttrRow) : 19 ≤ (attrVals l a).length := by
   cases l <;> simp [attrVals]
 
-theorem fixed_A (a : AttrRow) (hn : a.name.length ≤ 64) : AllFixed attrColsV15 (attrBssA a) := by
-  have hN := nameField_length a.name hn
-  simp only [AllFixed, FixedOK, attrColsV15, attrBssA, cOid, cName, cInt4, cInt2, cBool, cChar, le_length, hN, length_cons, length_nil, and_true]
-  repeat' apply And.intro
-  all_goals first | decide | (unfold Pow2Align; decide)
+theorem attrVals_isSome (l : Layout) (a : AttrRow) (j : Nat) (hj : j < 19) : ((attrVals l a).getD j none).isSome = true :=
+  isSome_of_all _ 19 (attrVals_some l a) (attrVals_length l a) j hj
 
-theorem fixed_B (a : AttrRow) (hn : a.name.length ≤ 64) : AllFixed attrColsV16 (attrBssB a) := by
-  have hN := nameField_length a.name hn
-  simp only [AllFixed, FixedOK, attrColsV16, attrBssB, cOid, cName, cInt4, cInt2, cBool, cChar, le_length, hN, length_cons, length_nil, and_true]
-  repeat' apply And.intro
-  all_goals first | decide | (unfold Pow2Align; decide)
+def attrRow16 (dec : Dec) (a : AttrRow) : Row := catalogRow dec attrCols16 (realBss16 a)
+def attrRow14 (dec : Dec) (a : AttrRow) : Row := catalogRow dec attrCols14 (realBss14 a)
+def attrRow12 (dec : Dec) (a : AttrRow) : Row := catalogRow dec attrCols12 ((realBss12 a).take 18)
+def attrRowD (dec : Dec) (l : Layout) (a : AttrRow) : Row := catalogRow dec attrCols16 (attrBssD l a)
+def attrRowE (dec : Dec) (a : AttrRow) : Row := catalogRow dec attrCols14 (realBss12 a)
 
-theorem fixed_C (a : AttrRow) (hn : a.name.length ≤ 64) : AllFixed attrColsV16 (attrBssC a) := by
-  have hN := nameField_length a.name hn
-  simp only [AllFixed, FixedOK, attrColsV16, attrBssC, cOid, cName, cInt4, cInt2, cBool, cChar, le_length, hN, length_cons, length_nil,
-    length_append, and_true]
-  repeat' apply And.intro
-  all_goals first | decide | (unfold Pow2Align; decide)
+theorem attr_decode_16 (dec : Dec) (hd : CatDec dec) (a : AttrRow) (im : Nat) (hn : a.name.length ≤ 64) (him : im < 65536) :
+    decodeTuple dec (mtuple (formRow (pgAttributeCols .v16) (attrVals .v16 a) im)) catSchemaAttr16 = .ok (some (toRow (attrRow16 dec a))) := by
+  obtain ⟨rest, hdata⟩ := data_16 a
+  exact decodeTuple_catalog dec hd _ _ im catSchemaAttr16 attrCols16 (realBss16 a) rest (attr_WF .v16 a im hn him)
+    attrCols16_match (fixed_16 a hn) schema16_ne
+    (fun j hj => attrVals_isSome .v16 a j (by simp [attrCols16, pgAttributeCols] at hj; omega)) (by decide) hdata
 
-theorem data_A (l : Layout) (hl : l ≠ .v16) (a : AttrRow) (hn : a.name.length ≤ 64) :
-    ∃ rest, form (pgAttributeCols l) (attrVals l a) 0 = form attrColsV15 ((attrBssA a).map fun bs => some (Datum.fixed bs)) 0 ++ rest := by
-  have h := form_split 8 (pgAttributeCols l) (attrVals l a) 0
-  rw [realVals15 l hl a, form_flat _ _ _ (aligned_real15 l hl a hn), flat_A, ← form_flat _ _ _ (aligned_A a hn)] at h
-  exact ⟨_, h⟩
+theorem attr_decode_14 (dec : Dec) (hd : CatDec dec) (a : AttrRow) (im : Nat) (hn : a.name.length ≤ 64) (him : im < 65536) :
+    decodeTuple dec (mtuple (formRow (pgAttributeCols .v14) (attrVals .v14 a) im)) catSchemaAttr14 = .ok (some (toRow (attrRow14 dec a))) := by
+  obtain ⟨rest, hdata⟩ := data_14 a
+  exact decodeTuple_catalog dec hd _ _ im catSchemaAttr14 attrCols14 (realBss14 a) rest (attr_WF .v14 a im hn him)
+    attrCols14_match (fixed_14 a hn) schema14_ne
+    (fun j hj => attrVals_isSome .v14 a j (by simp [attrCols14, pgAttributeCols] at hj; omega)) (by decide) hdata
 
-theorem data_B (a : AttrRow) (hn : a.name.length ≤ 64) :
-    ∃ rest, form (pgAttributeCols .v16) (attrVals .v16 a) 0 = form attrColsV16 ((attrBssB a).map fun bs => some (Datum.fixed bs)) 0 ++ rest := by
-  have h := form_split 7 (pgAttributeCols .v16) (attrVals .v16 a) 0
-  rw [realVals16 a, form_flat _ _ _ (aligned_real16 a hn), flat_B, ← form_flat _ _ _ (aligned_B a hn)] at h
-  exact ⟨_, h⟩
+theorem attr_decode_12 (dec : Dec) (hd : CatDec dec) (a : AttrRow) (im : Nat) (hn : a.name.length ≤ 64) (him : im < 65536) :
+    decodeTuple dec (mtuple (formRow (pgAttributeCols .v12) (attrVals .v12 a) im)) catSchemaAttr12 = .ok (some (toRow (attrRow12 dec a))) := by
+  obtain ⟨rest, hdata⟩ := data_12 a
+  exact decodeTuple_catalog dec hd _ _ im catSchemaAttr12 attrCols12 ((realBss12 a).take 18) rest (attr_WF .v12 a im hn him)
+    attrCols12_match (fixed_12 a hn) schema12_ne
+    (fun j hj => attrVals_isSome .v12 a j (by simp [attrCols12, pgAttributeCols] at hj; omega)) (by decide) hdata
 
-theorem realVals15_7 (l : Layout) (hl : l ≠ .v16) (a : AttrRow) :
-    (attrVals l a).take 7 = ((realBss15 a).take 7).map fun bs => some (Datum.fixed bs) := by
-  cases l
-  · rfl
-  · rfl
-  · exact absurd rfl hl
+theorem attr_decode_E (dec : Dec) (hd : CatDec dec) (a : AttrRow) (im : Nat) (hn : a.name.length ≤ 64) (him : im < 65536) :
+    decodeTuple dec (mtuple (formRow (pgAttributeCols .v12) (attrVals .v12 a) im)) catSchemaAttr14 = .ok (some (toRow (attrRowE dec a))) := by
+  obtain ⟨rest, hdata⟩ := data_E a hn
+  exact decodeTuple_catalog dec hd _ _ im catSchemaAttr14 attrCols14 (realBss12 a) rest (attr_WF .v12 a im hn him)
+    attrCols14_match (fixed_E a hn) schema14_ne
+    (fun j hj => attrVals_isSome .v12 a j (by simp [attrCols14, pgAttributeCols] at hj; omega)) (by decide) hdata
 
-theorem aligned_real15_7 (l : Layout) (hl : l ≠ .v16) (a : AttrRow) (hn : a.name.length ≤ 64) :
-    Aligned 0 ((pgAttributeCols l).take 7) ((realBss15 a).take 7) := by
-  have hN := nameField_length a.name hn
-  cases l
-  · simp only [Aligned, pgAttributeCols, realBss15, List.take, cOid, cName, cInt4, cInt2, le_length, hN, alignUp, and_true]
-  · simp only [Aligned, pgAttributeCols, realBss15, List.take, cOid, cName, cInt4, cInt2, le_length, hN, alignUp, and_true]
-  · exact absurd rfl hl
-
-theorem data_C (l : Layout) (hl : l ≠ .v16) (a : AttrRow) (hn : a.name.length ≤ 64) :
-    ∃ rest, form (pgAttributeCols l) (attrVals l a) 0 = form attrColsV16 ((attrBssC a).map fun bs => some (Datum.fixed bs)) 0 ++ rest := by
-  have h := form_split 7 (pgAttributeCols l) (attrVals l a) 0
-  rw [realVals15_7 l hl a, form_flat _ _ _ (aligned_real15_7 l hl a hn), flat_C, ← form_flat _ _ _ (aligned_C a hn)] at h
-  exact ⟨_, h⟩
-
-def attrRowA (dec : Dec) (a : AttrRow) : Row := catalogRow dec attrColsV15 (attrBssA a)
-def attrRowB (dec : Dec) (a : AttrRow) : Row := catalogRow dec attrColsV16 (attrBssB a)
-def attrRowC (dec : Dec) (a : AttrRow) : Row := catalogRow dec attrColsV16 (attrBssC a)
-
-theorem attr_decode_A (dec : Dec) (hd : CatDec dec) (l : Layout) (hl : l ≠ .v16) (a : AttrRow) (im : Nat) (hn : a.name.length ≤ 64)
+theorem attr_decode_D (dec : Dec) (hd : CatDec dec) (l : Layout) (hl : l ≠ .v16) (a : AttrRow) (im : Nat) (hn : a.name.length ≤ 64)
     (him : im < 65536) :
-    decodeTuple dec (mtuple (formRow (pgAttributeCols l) (attrVals l a) im)) schemaPGAttrV15 = .ok (some (toRow (attrRowA dec a))) := by
-  obtain ⟨rest, hdata⟩ := data_A l hl a hn
-  exact decodeTuple_catalog dec hd _ _ im schemaPGAttrV15 attrColsV15 (attrBssA a) rest (attr_WF l a im hn him)
-    attrColsV15_match (fixed_A a hn) schemaV15_ne
-    (isSome_of_all _ 10 (attrVals_some l a) (attrVals_length l a)) (by have := (attrCols_length l).1; simp [attrColsV15]; omega) hdata
+    decodeTuple dec (mtuple (formRow (pgAttributeCols l) (attrVals l a) im)) catSchemaAttr16 = .ok (some (toRow (attrRowD dec l a))) := by
+  obtain ⟨rest, hdata⟩ := data_D l hl a hn
+  exact decodeTuple_catalog dec hd _ _ im catSchemaAttr16 attrCols16 (attrBssD l a) rest (attr_WF l a im hn him)
+    attrCols16_match (fixed_D l hl a hn) schema16_ne
+    (fun j hj => attrVals_isSome l a j (by simp [attrCols16, pgAttributeCols] at hj; omega))
+    (by have := (attrCols_length l).1; have h18 : attrCols16.length = 18 := rfl; omega) hdata
 
-theorem attr_decode_B (dec : Dec) (hd : CatDec dec) (a : AttrRow) (im : Nat) (hn : a.name.length ≤ 64) (him : im < 65536) :
-    decodeTuple dec (mtuple (formRow (pgAttributeCols .v16) (attrVals .v16 a) im)) schemaPGAttrV16 = .ok (some (toRow (attrRowB dec a))) := by
-  obtain ⟨rest, hdata⟩ := data_B a hn
-  exact decodeTuple_catalog dec hd _ _ im schemaPGAttrV16 attrColsV16 (attrBssB a) rest (attr_WF .v16 a im hn him)
-    attrColsV16_match (fixed_B a hn) schemaV16_ne
-    (fun j hj => isSome_of_all _ 10 (attrVals_some .v16 a) (attrVals_length .v16 a) j (by simp [attrColsV16] at hj; omega))
-    (by decide) hdata
+/-! ### every schema decodes every tuple (what the automatic choice needs of the layouts it does not pick) -/
 
-theorem attr_decode_C (dec : Dec) (hd : CatDec dec) (l : Layout) (hl : l ≠ .v16) (a : AttrRow) (im : Nat) (hn : a.name.length ≤ 64)
-    (him : im < 65536) :
-    decodeTuple dec (mtuple (formRow (pgAttributeCols l) (attrVals l a) im)) schemaPGAttrV16 = .ok (some (toRow (attrRowC dec a))) := by
-  obtain ⟨rest, hdata⟩ := data_C l hl a hn
-  exact decodeTuple_catalog dec hd _ _ im schemaPGAttrV16 attrColsV16 (attrBssC a) rest (attr_WF l a im hn him)
-    attrColsV16_match (fixed_C a hn) schemaV16_ne
-    (fun j hj => isSome_of_all _ 10 (attrVals_some l a) (attrVals_length l a) j (by simp [attrColsV16] at hj; omega))
-    (by have := (attrCols_length l).1; simp [attrColsV16]; omega) hdata
+/-- a column of a catalog schema: one of the seven fixed-width catalog column types -/
+def catKindM (c : Column) : Prop := (c.typid, c.len) ∈ catKinds
+instance (c : Column) : Decidable (catKindM c) := by unfold catKindM; infer_instance
 
+theorem catKindM_pos (c : Column) (h : catKindM c) : 0 < c.len ∧ c.len ≠ -1 := by
+  unfold catKindM catKinds at h
+  simp only [mem_cons, Prod.mk.injEq, not_mem_nil, or_false] at h
+  rcases h with ⟨_, h⟩ | ⟨_, h⟩ | ⟨_, h⟩ | ⟨_, h⟩ | ⟨_, h⟩ | ⟨_, h⟩ | ⟨_, h⟩ <;> rw [h] <;> decide
 
+theorem readValue_cat (dec : Dec) (hd : CatDec dec) (data : Bytes) (off : Nat) (c : Column) (hk : catKindM c) :
+    ∃ r, readValue dec data off c.typid c.len = .ok r := by
+  obtain ⟨hpos, _⟩ := catKindM_pos c hk
+  unfold readValue
+  by_cases hoff : off ≥ data.length
+  · rw [if_pos hoff]; exact ⟨_, rfl⟩
+  · rw [if_neg hoff, sliceFrom_ok data off (by omega)]
+    simp only [ok_bind]
+    rw [if_pos hpos]
+    by_cases hshort : ((data.drop off).length : Int) < c.len
+    · rw [if_pos hshort]; exact ⟨_, rfl⟩
+    · rw [if_neg hshort, sliceTo_ok (data.drop off) c.len.toNat (by omega)]
+      simp only [ok_bind]
+      have hlen : (((data.drop off).take c.len.toNat).length : Int) = c.len := by
+        rw [length_take]; omega
+      obtain ⟨v, hv⟩ := catDec_total dec hd ⟨c.name, c.typid, c.len, 1⟩ hk _ hlen
+      simp only at hv
+      rw [hv]
+      exact ⟨_, rfl⟩
 
-/-! ### the fields ParsePGAttribute takes from a decoded row -/
+theorem decodeCols_cat (dec : Dec) (hd : CatDec dec) (t : HeapTuple) : ∀ (S : List Column) (i off : Nat), (∀ c ∈ S, catKindM c) →
+    ∃ ps, decodeCols dec t S i off = .ok ps
+  | [], _, _, _ => ⟨_, rfl⟩
+  | c :: cs, i, off, h => by
+    have hk := h c (by simp)
+    obtain ⟨_, hne⟩ := catKindM_pos c hk
+    simp only [decodeCols]
+    by_cases hn : t.isNull (if c.num = 0 then (i : Int) + 1 else c.num) = true
+    · rw [if_pos hn]
+      obtain ⟨ps, hps⟩ := decodeCols_cat dec hd t cs (i + 1) off (fun x hx => h x (by simp [hx]))
+      rw [hps]; exact ⟨_, rfl⟩
+    · rw [if_neg hn]
+      have hca : chooseAlign c t.data off = .ok (colAlign c) := by
+        unfold chooseAlign
+        rw [if_neg (by intro hh; exact hne hh.1)]
+        rfl
+      rw [hca]
+      simp only [ok_bind]
+      obtain ⟨r, hr⟩ := readValue_cat dec hd t.data (align off (colAlign c)) c hk
+      rw [hr]
+      simp only [ok_bind]
+      obtain ⟨ps, hps⟩ := decodeCols_cat dec hd t cs (i + 1) (align off (colAlign c) + r.2) (fun x hx => h x (by simp [hx]))
+      rw [hps]; exact ⟨_, rfl⟩
 
-/-- what the tool's `attalign` byte really is (finding A03): the high byte of attcacheoff (−1 → 0xFF) in the 12–15
-layouts, the high byte of atttypmod in the 16 layout -/
-def toolAlignByte (l : Layout) (a : AttrRow) : UInt8 :=
-  match l with
-  | .v16 => b3 (ofSigned 32 a.typmod)
-  | _ => b3 (ofSigned 32 (-1))
+/-- DecodeTuple with a non-empty schema of catalog columns returns a row for every tuple whatsoever -/
+theorem decodeTuple_catSchema (dec : Dec) (hd : CatDec dec) (t : HeapTuple) (S : List Column) (hne : S ≠ [])
+    (hS : ∀ c ∈ S, catKindM c) : ∃ row, decodeTuple dec t S = .ok (some row) := by
+  unfold decodeTuple
+  have : ¬ (t.data.length = 0 ∧ S.length = 0) := by
+    intro ⟨_, h⟩; exact hne (length_eq_zero_iff.mp h)
+  rw [if_neg this]
+  obtain ⟨ps, hps⟩ := decodeCols_cat dec hd t S 0 0 hS
+  rw [hps]
+  exact ⟨_, rfl⟩
 
-structure AttrFields (row : Row) (a : AttrRow) (ab : UInt8) : Prop where
+theorem schema16_cat : ∀ c ∈ catSchemaAttr16, catKindM c := by
+  simp only [catSchemaAttr16, mkSchema, Generated.Cluster.schemaPGAttrDropped, List.map]
+  decide
+theorem schema14_cat : ∀ c ∈ catSchemaAttr14, catKindM c := by
+  simp only [catSchemaAttr14, mkSchema, Generated.Cluster.schemaPGAttrDroppedV15, List.map]
+  decide
+theorem schema12_cat : ∀ c ∈ catSchemaAttr12, catKindM c := by
+  simp only [catSchemaAttr12, mkSchema, Generated.Cluster.schemaPGAttrDroppedV12, List.map]
+  decide
+
+/-! ### the fields ParsePGAttribute and the layout choice take from a decoded row -/
+
+/-- the attalign character of an attribute as a byte -/
+def alignByte (a : AttrRow) : UInt8 := UInt8.ofNat (alignCh a.align)
+
+structure AttrFields (row : Row) (a : AttrRow) : Prop where
   relid : getOID row "attrelid" = a.relid
   name : getString row "attname" = a.name
   typid : getOID row "atttypid" = a.typid
   len : getInt row "attlen" = a.len
   num : getInt row "attnum" = a.num
-  align : getString row "attalign" = [ab]
+  align : getString row "attalign" = [alignByte a]
+  storage : getString row "attstorage" = [UInt8.ofNat a.storage]
 
 structure AttrWF (a : AttrRow) : Prop where
   name : nameOK a.name
@@ -307,19 +444,27 @@ structure AttrWF (a : AttrRow) : Prop where
   typid : a.typid < 2 ^ 32
   num : -32768 ≤ a.num ∧ a.num < 32768
   len : -32768 ≤ a.len ∧ a.len < 32768
+  align : a.align = 1 ∨ a.align = 2 ∨ a.align = 4 ∨ a.align = 8
 
-theorem idxV15 : (attrColsV15.map (·.name)).Nodup ∧ (attrColsV15.map (·.name)).idxOf (strBytes "attrelid") = 0 ∧
-    (attrColsV15.map (·.name)).idxOf (strBytes "attname") = 1 ∧ (attrColsV15.map (·.name)).idxOf (strBytes "atttypid") = 2 ∧
-    (attrColsV15.map (·.name)).idxOf (strBytes "attlen") = 4 ∧ (attrColsV15.map (·.name)).idxOf (strBytes "attnum") = 5 ∧
-    (attrColsV15.map (·.name)).idxOf (strBytes "attalign") = 9 := by
-  simp only [attrColsV15, List.map, cOid, cName, cInt4, cInt2, cBool, cChar, strBytes_eq]
+theorem idx16 : (attrCols16.map (·.name)).Nodup ∧ (attrCols16.map (·.name)).idxOf (strBytes "attrelid") = 0 ∧
+    (attrCols16.map (·.name)).idxOf (strBytes "attname") = 1 ∧ (attrCols16.map (·.name)).idxOf (strBytes "atttypid") = 2 ∧
+    (attrCols16.map (·.name)).idxOf (strBytes "attlen") = 3 ∧ (attrCols16.map (·.name)).idxOf (strBytes "attnum") = 4 ∧
+    (attrCols16.map (·.name)).idxOf (strBytes "attalign") = 9 ∧ (attrCols16.map (·.name)).idxOf (strBytes "attstorage") = 10 := by
+  simp only [attrCols16, pgAttributeCols, List.take, List.map, cOid, cName, cInt4, cInt2, cBool, cChar, strBytes_eq]
   decide
 
-theorem idxV16 : (attrColsV16.map (·.name)).Nodup ∧ (attrColsV16.map (·.name)).idxOf (strBytes "attrelid") = 0 ∧
-    (attrColsV16.map (·.name)).idxOf (strBytes "attname") = 1 ∧ (attrColsV16.map (·.name)).idxOf (strBytes "atttypid") = 2 ∧
-    (attrColsV16.map (·.name)).idxOf (strBytes "attlen") = 3 ∧ (attrColsV16.map (·.name)).idxOf (strBytes "attnum") = 4 ∧
-    (attrColsV16.map (·.name)).idxOf (strBytes "attalign") = 8 := by
-  simp only [attrColsV16, List.map, cOid, cName, cInt4, cInt2, cBool, cChar, strBytes_eq]
+theorem idx14 : (attrCols14.map (·.name)).Nodup ∧ (attrCols14.map (·.name)).idxOf (strBytes "attrelid") = 0 ∧
+    (attrCols14.map (·.name)).idxOf (strBytes "attname") = 1 ∧ (attrCols14.map (·.name)).idxOf (strBytes "atttypid") = 2 ∧
+    (attrCols14.map (·.name)).idxOf (strBytes "attlen") = 4 ∧ (attrCols14.map (·.name)).idxOf (strBytes "attnum") = 5 ∧
+    (attrCols14.map (·.name)).idxOf (strBytes "attalign") = 10 ∧ (attrCols14.map (·.name)).idxOf (strBytes "attstorage") = 11 := by
+  simp only [attrCols14, pgAttributeCols, List.take, List.map, cOid, cName, cInt4, cInt2, cBool, cChar, strBytes_eq]
+  decide
+
+theorem idx12 : (attrCols12.map (·.name)).Nodup ∧ (attrCols12.map (·.name)).idxOf (strBytes "attrelid") = 0 ∧
+    (attrCols12.map (·.name)).idxOf (strBytes "attname") = 1 ∧ (attrCols12.map (·.name)).idxOf (strBytes "atttypid") = 2 ∧
+    (attrCols12.map (·.name)).idxOf (strBytes "attlen") = 4 ∧ (attrCols12.map (·.name)).idxOf (strBytes "attnum") = 5 ∧
+    (attrCols12.map (·.name)).idxOf (strBytes "attalign") = 11 ∧ (attrCols12.map (·.name)).idxOf (strBytes "attstorage") = 10 := by
+  simp only [attrCols12, pgAttributeCols, List.take, List.map, cOid, cName, cInt4, cInt2, cBool, cChar, strBytes_eq]
   decide
 
 theorem dec_oid (dec : Dec) (hd : CatDec dec) (v : Nat) (hv : v < 2 ^ 32) : okVal (dec (le 4 v) 26) = .int v := by
@@ -340,89 +485,137 @@ theorem dec_int2 (dec : Dec) (hd : CatDec dec) (v : Int) (h1 : -32768 ≤ v) (h2
   simp only [append_nil] at this
   rw [this, toSigned_ofSigned16 v h1 h2]
 
-theorem attrRowA_toRow (dec : Dec) (a : AttrRow) : toRow (attrRowA dec a) = attrRowA dec a := by
+theorem dec_char (dec : Dec) (hd : CatDec dec) (b : UInt8) : okVal (dec [b] 18) = .str [b] := by
+  rw [hd.char _ rfl, okVal_ok]
+
+theorem attrRow16_toRow (dec : Dec) (a : AttrRow) : toRow (attrRow16 dec a) = attrRow16 dec a := by
   apply PgVerif.Props.C03.C03_entries
-  unfold attrRowA
+  unfold attrRow16
   rw [catalogRow_names dec _ _ rfl]
-  exact idxV15.1
+  exact idx16.1
 
-theorem attrRowB_toRow (dec : Dec) (a : AttrRow) : toRow (attrRowB dec a) = attrRowB dec a := by
+theorem attrRow14_toRow (dec : Dec) (a : AttrRow) : toRow (attrRow14 dec a) = attrRow14 dec a := by
   apply PgVerif.Props.C03.C03_entries
-  unfold attrRowB
+  unfold attrRow14
   rw [catalogRow_names dec _ _ rfl]
-  exact idxV16.1
+  exact idx14.1
 
-theorem attrRowC_toRow (dec : Dec) (a : AttrRow) : toRow (attrRowC dec a) = attrRowC dec a := by
+theorem attrRow12_toRow (dec : Dec) (a : AttrRow) : toRow (attrRow12 dec a) = attrRow12 dec a := by
   apply PgVerif.Props.C03.C03_entries
-  unfold attrRowC
+  unfold attrRow12
   rw [catalogRow_names dec _ _ rfl]
-  exact idxV16.1
+  exact idx12.1
 
-theorem fields_A (dec : Dec) (hd : CatDec dec) (a : AttrRow) (hw : AttrWF a) :
-    AttrFields (toRow (attrRowA dec a)) a (b3 (ofSigned 32 (-1))) := by
-  rw [attrRowA_toRow]
-  obtain ⟨_, i0, i1, i2, i4, i5, i9⟩ := idxV15
-  have l0 := catalogRow_lookup dec attrColsV15 (attrBssA a) _ 0 i0 (by decide) rfl
-  have l1 := catalogRow_lookup dec attrColsV15 (attrBssA a) _ 1 i1 (by decide) rfl
-  have l2 := catalogRow_lookup dec attrColsV15 (attrBssA a) _ 2 i2 (by decide) rfl
-  have l4 := catalogRow_lookup dec attrColsV15 (attrBssA a) _ 4 i4 (by decide) rfl
-  have l5 := catalogRow_lookup dec attrColsV15 (attrBssA a) _ 5 i5 (by decide) rfl
-  have l9 := catalogRow_lookup dec attrColsV15 (attrBssA a) _ 9 i9 (by decide) rfl
-  have e0 : okVal (dec ((attrBssA a).getD 0 []) (attrColsV15.getD 0 default).typid) = .int a.relid := dec_oid dec hd _ hw.relid
-  have e1 : okVal (dec ((attrBssA a).getD 1 []) (attrColsV15.getD 1 default).typid) = .str a.name := dec_name dec hd _ hw.name
-  have e2 : okVal (dec ((attrBssA a).getD 2 []) (attrColsV15.getD 2 default).typid) = .int a.typid := dec_oid dec hd _ hw.typid
-  have e4 : okVal (dec ((attrBssA a).getD 4 []) (attrColsV15.getD 4 default).typid) = .int a.len := dec_int2 dec hd _ hw.len.1 hw.len.2
-  have e5 : okVal (dec ((attrBssA a).getD 5 []) (attrColsV15.getD 5 default).typid) = .int a.num := dec_int2 dec hd _ hw.num.1 hw.num.2
-  have e9 : okVal (dec ((attrBssA a).getD 9 []) (attrColsV15.getD 9 default).typid) = .str [b3 (ofSigned 32 (-1))] := by
-    show okVal (dec [b3 (ofSigned 32 (-1))] 18) = _
-    rw [hd.char _ rfl, okVal_ok]
-  rw [e0] at l0; rw [e1] at l1; rw [e2] at l2; rw [e4] at l4; rw [e5] at l5; rw [e9] at l9
-  unfold attrRowA
-  exact ⟨getOID_int _ _ _ hw.relid l0, getString_str _ _ _ l1, getOID_int _ _ _ hw.typid l2, getInt_int _ _ _ l4,
-    getInt_int _ _ _ l5, getString_str _ _ _ l9⟩
+theorem attrRowE_toRow (dec : Dec) (a : AttrRow) : toRow (attrRowE dec a) = attrRowE dec a := by
+  apply PgVerif.Props.C03.C03_entries
+  unfold attrRowE
+  rw [catalogRow_names dec _ _ rfl]
+  exact idx14.1
 
-theorem fields_B (dec : Dec) (hd : CatDec dec) (a : AttrRow) (hw : AttrWF a) :
-    AttrFields (toRow (attrRowB dec a)) a (b3 (ofSigned 32 a.typmod)) := by
-  rw [attrRowB_toRow]
-  obtain ⟨_, i0, i1, i2, i3, i4, i8⟩ := idxV16
-  have l0 := catalogRow_lookup dec attrColsV16 (attrBssB a) _ 0 i0 (by decide) rfl
-  have l1 := catalogRow_lookup dec attrColsV16 (attrBssB a) _ 1 i1 (by decide) rfl
-  have l2 := catalogRow_lookup dec attrColsV16 (attrBssB a) _ 2 i2 (by decide) rfl
-  have l3 := catalogRow_lookup dec attrColsV16 (attrBssB a) _ 3 i3 (by decide) rfl
-  have l4 := catalogRow_lookup dec attrColsV16 (attrBssB a) _ 4 i4 (by decide) rfl
-  have l8 := catalogRow_lookup dec attrColsV16 (attrBssB a) _ 8 i8 (by decide) rfl
-  have e0 : okVal (dec ((attrBssB a).getD 0 []) (attrColsV16.getD 0 default).typid) = .int a.relid := dec_oid dec hd _ hw.relid
-  have e1 : okVal (dec ((attrBssB a).getD 1 []) (attrColsV16.getD 1 default).typid) = .str a.name := dec_name dec hd _ hw.name
-  have e2 : okVal (dec ((attrBssB a).getD 2 []) (attrColsV16.getD 2 default).typid) = .int a.typid := dec_oid dec hd _ hw.typid
-  have e3 : okVal (dec ((attrBssB a).getD 3 []) (attrColsV16.getD 3 default).typid) = .int a.len := dec_int2 dec hd _ hw.len.1 hw.len.2
-  have e4 : okVal (dec ((attrBssB a).getD 4 []) (attrColsV16.getD 4 default).typid) = .int a.num := dec_int2 dec hd _ hw.num.1 hw.num.2
-  have e8 : okVal (dec ((attrBssB a).getD 8 []) (attrColsV16.getD 8 default).typid) = .str [b3 (ofSigned 32 a.typmod)] := by
-    show okVal (dec [b3 (ofSigned 32 a.typmod)] 18) = _
-    rw [hd.char _ rfl, okVal_ok]
-  rw [e0] at l0; rw [e1] at l1; rw [e2] at l2; rw [e3] at l3; rw [e4] at l4; rw [e8] at l8
-  unfold attrRowB
+theorem attrBssD_length (l : Layout) (hl : l ≠ .v16) (a : AttrRow) : (attrBssD l a).length = attrCols16.length := by
+  cases l
+  · rfl
+  · rfl
+  · exact absurd rfl hl
+
+theorem attrRowD_toRow (dec : Dec) (l : Layout) (hl : l ≠ .v16) (a : AttrRow) : toRow (attrRowD dec l a) = attrRowD dec l a := by
+  apply PgVerif.Props.C03.C03_entries
+  unfold attrRowD
+  rw [catalogRow_names dec _ _ (attrBssD_length l hl a)]
+  exact idx16.1
+
+/-- **a 16 row under the 16 schema**: every field ParsePGAttribute takes comes from its own bytes -/
+theorem fields_16 (dec : Dec) (hd : CatDec dec) (a : AttrRow) (hw : AttrWF a) : AttrFields (toRow (attrRow16 dec a)) a := by
+  rw [attrRow16_toRow]
+  obtain ⟨_, i0, i1, i2, i3, i4, i9, i10⟩ := idx16
+  have l0 := catalogRow_lookup dec attrCols16 (realBss16 a) _ 0 i0 (by decide) rfl
+  have l1 := catalogRow_lookup dec attrCols16 (realBss16 a) _ 1 i1 (by decide) rfl
+  have l2 := catalogRow_lookup dec attrCols16 (realBss16 a) _ 2 i2 (by decide) rfl
+  have l3 := catalogRow_lookup dec attrCols16 (realBss16 a) _ 3 i3 (by decide) rfl
+  have l4 := catalogRow_lookup dec attrCols16 (realBss16 a) _ 4 i4 (by decide) rfl
+  have l9 := catalogRow_lookup dec attrCols16 (realBss16 a) _ 9 i9 (by decide) rfl
+  have l10 := catalogRow_lookup dec attrCols16 (realBss16 a) _ 10 i10 (by decide) rfl
+  have e0 : okVal (dec ((realBss16 a).getD 0 []) (attrCols16.getD 0 default).typid) = .int a.relid := dec_oid dec hd _ hw.relid
+  have e1 : okVal (dec ((realBss16 a).getD 1 []) (attrCols16.getD 1 default).typid) = .str a.name := dec_name dec hd _ hw.name
+  have e2 : okVal (dec ((realBss16 a).getD 2 []) (attrCols16.getD 2 default).typid) = .int a.typid := dec_oid dec hd _ hw.typid
+  have e3 : okVal (dec ((realBss16 a).getD 3 []) (attrCols16.getD 3 default).typid) = .int a.len := dec_int2 dec hd _ hw.len.1 hw.len.2
+  have e4 : okVal (dec ((realBss16 a).getD 4 []) (attrCols16.getD 4 default).typid) = .int a.num := dec_int2 dec hd _ hw.num.1 hw.num.2
+  have e9 : okVal (dec ((realBss16 a).getD 9 []) (attrCols16.getD 9 default).typid) = .str [alignByte a] := dec_char dec hd _
+  have e10 : okVal (dec ((realBss16 a).getD 10 []) (attrCols16.getD 10 default).typid) = .str [UInt8.ofNat a.storage] := dec_char dec hd _
+  rw [e0] at l0; rw [e1] at l1; rw [e2] at l2; rw [e3] at l3; rw [e4] at l4; rw [e9] at l9; rw [e10] at l10
+  unfold attrRow16
   exact ⟨getOID_int _ _ _ hw.relid l0, getString_str _ _ _ l1, getOID_int _ _ _ hw.typid l2, getInt_int _ _ _ l3,
-    getInt_int _ _ _ l4, getString_str _ _ _ l8⟩
+    getInt_int _ _ _ l4, getString_str _ _ _ l9, getString_str _ _ _ l10⟩
 
-/-- probing a 12–15 row with the V16 schema: `attnum` is the high half of attstattarget — 0 or −1 for every
-statistics target PostgreSQL accepts (−1 … 10000), never 1 -/
-theorem attnum_C (dec : Dec) (hd : CatDec dec) (a : AttrRow) (hs : -65536 ≤ a.stattarget ∧ a.stattarget < 65536) :
-    getInt (toRow (attrRowC dec a)) "attnum" ≠ 1 := by
-  rw [attrRowC_toRow]
-  obtain ⟨_, _, _, _, _, i4, _⟩ := idxV16
-  have l4 := catalogRow_lookup dec attrColsV16 (attrBssC a) _ 4 i4 (by decide) rfl
-  have e4 : okVal (dec ((attrBssC a).getD 4 []) (attrColsV16.getD 4 default).typid) =
-      .int (toSigned 16 (ofSigned 32 a.stattarget / 256 / 256)) := by
-    show okVal (dec (le 2 (ofSigned 32 a.stattarget / 256 / 256)) 21) = _
-    rw [hd.int2 _ (by simp), okVal_ok]
-    have := rd_le 2 (ofSigned 32 a.stattarget / 256 / 256) [] (by have := ofSigned32_lt a.stattarget; omega)
-    simp only [append_nil] at this
-    rw [this]
-  rw [e4] at l4
-  unfold attrRowC
-  rw [getInt_int _ _ _ l4]
-  unfold toSigned ofSigned
-  simp only [Nat.reducePow, Nat.reduceSub]
-  split <;> omega
+/-- **a 14–15 row under the 14–15 schema** -/
+theorem fields_14 (dec : Dec) (hd : CatDec dec) (a : AttrRow) (hw : AttrWF a) : AttrFields (toRow (attrRow14 dec a)) a := by
+  rw [attrRow14_toRow]
+  obtain ⟨_, i0, i1, i2, i4, i5, i10, i11⟩ := idx14
+  have l0 := catalogRow_lookup dec attrCols14 (realBss14 a) _ 0 i0 (by decide) rfl
+  have l1 := catalogRow_lookup dec attrCols14 (realBss14 a) _ 1 i1 (by decide) rfl
+  have l2 := catalogRow_lookup dec attrCols14 (realBss14 a) _ 2 i2 (by decide) rfl
+  have l4 := catalogRow_lookup dec attrCols14 (realBss14 a) _ 4 i4 (by decide) rfl
+  have l5 := catalogRow_lookup dec attrCols14 (realBss14 a) _ 5 i5 (by decide) rfl
+  have l10 := catalogRow_lookup dec attrCols14 (realBss14 a) _ 10 i10 (by decide) rfl
+  have l11 := catalogRow_lookup dec attrCols14 (realBss14 a) _ 11 i11 (by decide) rfl
+  have e0 : okVal (dec ((realBss14 a).getD 0 []) (attrCols14.getD 0 default).typid) = .int a.relid := dec_oid dec hd _ hw.relid
+  have e1 : okVal (dec ((realBss14 a).getD 1 []) (attrCols14.getD 1 default).typid) = .str a.name := dec_name dec hd _ hw.name
+  have e2 : okVal (dec ((realBss14 a).getD 2 []) (attrCols14.getD 2 default).typid) = .int a.typid := dec_oid dec hd _ hw.typid
+  have e4 : okVal (dec ((realBss14 a).getD 4 []) (attrCols14.getD 4 default).typid) = .int a.len := dec_int2 dec hd _ hw.len.1 hw.len.2
+  have e5 : okVal (dec ((realBss14 a).getD 5 []) (attrCols14.getD 5 default).typid) = .int a.num := dec_int2 dec hd _ hw.num.1 hw.num.2
+  have e10 : okVal (dec ((realBss14 a).getD 10 []) (attrCols14.getD 10 default).typid) = .str [alignByte a] := dec_char dec hd _
+  have e11 : okVal (dec ((realBss14 a).getD 11 []) (attrCols14.getD 11 default).typid) = .str [UInt8.ofNat a.storage] := dec_char dec hd _
+  rw [e0] at l0; rw [e1] at l1; rw [e2] at l2; rw [e4] at l4; rw [e5] at l5; rw [e10] at l10; rw [e11] at l11
+  unfold attrRow14
+  exact ⟨getOID_int _ _ _ hw.relid l0, getString_str _ _ _ l1, getOID_int _ _ _ hw.typid l2, getInt_int _ _ _ l4,
+    getInt_int _ _ _ l5, getString_str _ _ _ l10, getString_str _ _ _ l11⟩
+
+/-- **a 12–13 row under the 12–13 schema** -/
+theorem fields_12 (dec : Dec) (hd : CatDec dec) (a : AttrRow) (hw : AttrWF a) : AttrFields (toRow (attrRow12 dec a)) a := by
+  rw [attrRow12_toRow]
+  obtain ⟨_, i0, i1, i2, i4, i5, i11, i10⟩ := idx12
+  have l0 := catalogRow_lookup dec attrCols12 ((realBss12 a).take 18) _ 0 i0 (by decide) rfl
+  have l1 := catalogRow_lookup dec attrCols12 ((realBss12 a).take 18) _ 1 i1 (by decide) rfl
+  have l2 := catalogRow_lookup dec attrCols12 ((realBss12 a).take 18) _ 2 i2 (by decide) rfl
+  have l4 := catalogRow_lookup dec attrCols12 ((realBss12 a).take 18) _ 4 i4 (by decide) rfl
+  have l5 := catalogRow_lookup dec attrCols12 ((realBss12 a).take 18) _ 5 i5 (by decide) rfl
+  have l11 := catalogRow_lookup dec attrCols12 ((realBss12 a).take 18) _ 11 i11 (by decide) rfl
+  have l10 := catalogRow_lookup dec attrCols12 ((realBss12 a).take 18) _ 10 i10 (by decide) rfl
+  have e0 : okVal (dec (((realBss12 a).take 18).getD 0 []) (attrCols12.getD 0 default).typid) = .int a.relid := dec_oid dec hd _ hw.relid
+  have e1 : okVal (dec (((realBss12 a).take 18).getD 1 []) (attrCols12.getD 1 default).typid) = .str a.name := dec_name dec hd _ hw.name
+  have e2 : okVal (dec (((realBss12 a).take 18).getD 2 []) (attrCols12.getD 2 default).typid) = .int a.typid := dec_oid dec hd _ hw.typid
+  have e4 : okVal (dec (((realBss12 a).take 18).getD 4 []) (attrCols12.getD 4 default).typid) = .int a.len := dec_int2 dec hd _ hw.len.1 hw.len.2
+  have e5 : okVal (dec (((realBss12 a).take 18).getD 5 []) (attrCols12.getD 5 default).typid) = .int a.num := dec_int2 dec hd _ hw.num.1 hw.num.2
+  have e11 : okVal (dec (((realBss12 a).take 18).getD 11 []) (attrCols12.getD 11 default).typid) = .str [alignByte a] := dec_char dec hd _
+  have e10 : okVal (dec (((realBss12 a).take 18).getD 10 []) (attrCols12.getD 10 default).typid) = .str [UInt8.ofNat a.storage] := dec_char dec hd _
+  rw [e0] at l0; rw [e1] at l1; rw [e2] at l2; rw [e4] at l4; rw [e5] at l5; rw [e11] at l11; rw [e10] at l10
+  unfold attrRow12
+  exact ⟨getOID_int _ _ _ hw.relid l0, getString_str _ _ _ l1, getOID_int _ _ _ hw.typid l2, getInt_int _ _ _ l4,
+    getInt_int _ _ _ l5, getString_str _ _ _ l11, getString_str _ _ _ l10⟩
+
+/-- a 12–15 row under the 16 schema: `attalign` is the high byte of attcacheoff (−1), 0xFF -/
+theorem align_D (dec : Dec) (hd : CatDec dec) (l : Layout) (hl : l ≠ .v16) (a : AttrRow) :
+    getString (toRow (attrRowD dec l a)) "attalign" = [255] := by
+  rw [attrRowD_toRow dec l hl]
+  obtain ⟨_, _, _, _, _, _, i9, _⟩ := idx16
+  have l9 := catalogRow_lookup dec attrCols16 (attrBssD l a) _ 9 i9 (by decide) (attrBssD_length l hl a)
+  have e9 : okVal (dec ((attrBssD l a).getD 9 []) (attrCols16.getD 9 default).typid) = .str [255] := by
+    have hb : (attrBssD l a).getD 9 [] = [b3 (ofSigned 32 (-1))] := rfl
+    rw [hb, ofSigned32_neg1]
+    exact dec_char dec hd _
+  rw [e9] at l9
+  unfold attrRowD
+  exact getString_str _ _ _ l9
+
+/-- a 12–13 row under the 14–15 schema: `attstorage` is the row's attalign (and `attalign` its attstorage) -/
+theorem storage_E (dec : Dec) (hd : CatDec dec) (a : AttrRow) :
+    getString (toRow (attrRowE dec a)) "attstorage" = [alignByte a] := by
+  rw [attrRowE_toRow]
+  obtain ⟨_, _, _, _, _, _, _, i11⟩ := idx14
+  have l11 := catalogRow_lookup dec attrCols14 (realBss12 a) _ 11 i11 (by decide) rfl
+  have e11 : okVal (dec ((realBss12 a).getD 11 []) (attrCols14.getD 11 default).typid) = .str [alignByte a] := dec_char dec hd _
+  rw [e11] at l11
+  unfold attrRowE
+  exact getString_str _ _ _ l11
 
 end PgVerif.Proofs.Cluster
